@@ -79,6 +79,7 @@ def guarded(mod, spec):
     (`hang|...`); elsewhere it is a harness error."""
     import signal
 
+    breadcrumb(spec)
     signal.signal(signal.SIGPROF, _on_timer)
     signal.setitimer(signal.ITIMER_PROF, CASE_CPU_S, CASE_CPU_S)
     try:
@@ -102,6 +103,22 @@ def guarded(mod, spec):
         raise
     finally:
         signal.setitimer(signal.ITIMER_PROF, 0)
+        core.release_tracked()
+
+
+BREADCRUMB = {"path": None}
+
+
+def breadcrumb(spec) -> None:
+    """Remember the case that is about to run, so that the runner can report it if this process dies from a fatal signal
+    (a native crash can only come from the code under test and its dependencies, the harness is pure Python)."""
+    p = BREADCRUMB["path"]
+    if p:
+        try:
+            with open(p, "w") as f:
+                json.dump(spec, f, default=repr)
+        except OSError:
+            pass
 
 
 def limit_memory():
@@ -249,6 +266,7 @@ def main(argv):
     mode, prop, tier, seed, shard, nshards, outfile = argv[:7]
     args = json.loads(argv[7]) if len(argv) > 7 else {}
     seed, shard, nshards = int(seed), int(shard), int(nshards)
+    BREADCRUMB["path"] = outfile + ".current"
     t0 = time.time()
     res = {}
     code = 0
